@@ -3,7 +3,7 @@
    section 5). The burst clause is c03_burst_detected, from proofs/CrcBurst.v. *)
 Require Import GSE.model.Base GSE.model.Types GSE.model.Ext GSE.model.Encap GSE.model.Memory GSE.model.Decap
   GSE.proofs.Tactics GSE.proofs.BaseLemmas GSE.proofs.MemoryLemmas GSE.proofs.DecapBase GSE.proofs.DecapSpec
-  GSE.proofs.DecapProps GSE.proofs.RoundTrip GSE.proofs.FragTrip GSE.proofs.Isolation GSE.proofs.Verified GSE.proofs.CrcLemmas GSE.proofs.CrcBurst.
+  GSE.proofs.DecapProps GSE.proofs.RoundTrip GSE.proofs.FragTrip GSE.proofs.Isolation GSE.proofs.Verified GSE.proofs.CrcLemmas GSE.proofs.CrcBurst GSE.proofs.LabelSync GSE.proofs.GhostBytes.
 Require Import GSE.gen.Consts GSE.model.Crc.
 Require Import GSE.props.C05.
 Open Scope N_scope.
@@ -117,7 +117,7 @@ Qed.
    R = total length | protocol type | label as carried | bytes received for the train (ghost history) ++ own payload
    against the trailer. If R ++ trailer differs from a CRC-protected string P ++ CRC(P) -- what a sender put on the
    link -- by a non-zero error pattern confined to 32 consecutive bit positions, no PDU is delivered. *)
-Theorem c03_burst_detected : forall mgr slots maxpdu cs buf s A t p c0 ps P e,
+Lemma c03_burst_core : forall mgr slots maxpdu cs buf s A t p c0 ps P e,
   Forall dcall_ok cs -> bytes_ok buf ->
   hrun default_crc mgr (dec_new slots maxpdu, fun _ => None) cs = Ret (s, A) ->
   head_pkt buf = Some (KEnd, t, p) ->
@@ -144,6 +144,47 @@ Proof.
   exact Hcrc.
 Qed.
 
+(* the ghost history holds byte strings only, after every history *)
+Theorem c03_history_bytes : forall crc mgr slots maxpdu cs s A, Forall dcall_ok cs ->
+  hrun crc mgr (dec_new slots maxpdu, fun _ => None) cs = Ret (s, A) -> ghost_bytes A.
+Proof.
+  intros crc mgr slots maxpdu cs s A Hok.
+  assert (H0 : dstate_wf (dec_new slots maxpdu) /\ ghost_bytes (fun _ => None)).
+  { split; [apply dstate_wf_mem, mem_ok_new|apply ghost_bytes_init]. }
+  revert H0. generalize (fun _ : N => @None (dctx * list (list byte))). generalize (dec_new slots maxpdu).
+  induction cs as [|c t IH]; intros s0 A0 [Hs HB] Hrun; cbn [hrun] in Hrun; [injection Hrun as <- <-; exact HB|].
+  inversion Hok; subst.
+  destruct c as [buf|b| |]; cbn [hstep dcall_ok bind] in *.
+  - rewrite decap_spec in Hrun by assumption. pose proof (decap_hl_wf crc mgr s0 buf Hs H1) as W.
+    destruct (decap_hl crc mgr s0 buf) as [s' r] eqn:Ed. cbn [bind fst] in *.
+    apply (IH H2 s' (ghost_step A0 s' buf r)); [split; [exact W|]|exact Hrun].
+    apply (ghost_step_bytes crc mgr s0 A0 buf s' r); assumption.
+  - destruct (dec_provision_wf s0 b Hs) as [W _]. apply (IH H2 (fst (dec_provision s0 b)) A0); [split; assumption|exact Hrun].
+  - destruct (dec_new_pdu_wf s0 Hs) as [W _]. apply (IH H2 (fst (dec_new_pdu s0)) A0); [split; assumption|exact Hrun].
+  - apply (IH H2 (dec_reset s0) A0); [split; assumption|exact Hrun].
+Qed.
+
+
+(* the burst clause, for every history of calls on byte strings *)
+Theorem c03_burst_detected : forall mgr slots maxpdu cs buf s A t p c0 ps P e,
+  Forall dcall_ok cs -> bytes_ok buf ->
+  hrun default_crc mgr (dec_new slots maxpdu, fun _ => None) cs = Ret (s, A) ->
+  head_pkt buf = Some (KEnd, t, p) ->
+  A (hd0 (dropN 2 p) mod max_frag_id (dmem s)) = Some (c0, ps) ->
+  let lab := if c_reuse c0 then [] else label_bytes (c_label c0) in
+  let R := be16 (c_total c0) ++ be16 (c_ptype c0) ++ lab ++ concat ps ++ end_payload p in
+  bytes_ok P ->
+  length (bits (P ++ be32 (crc_spec P 0xFFFFFFFF))) = length e ->
+  bits (R ++ be32 (end_trailer p)) = xorl (bits (P ++ be32 (crc_spec P 0xFFFFFFFF))) e -> burst e ->
+  forall s' b md n, decap default_crc mgr s buf <> Ret (s', inl (DCompleted b md, n)).
+Proof.
+  intros mgr slots maxpdu cs buf s A t p c0 ps P e Hok Hb Hrun Hh HA lab R HP Hlen Hx Hburst.
+  destruct (c03_history_bytes default_crc mgr slots maxpdu cs s A Hok Hrun _ _ _ HA) as [Hps Hl].
+  apply (c03_burst_core mgr slots maxpdu cs buf s A t p c0 ps P e); auto.
+  - destruct (c_reuse c0); [constructor|now apply Hl].
+  - clear -Hps. induction Hps as [|x l Hx _ IH]; [constructor|]. cbn [concat]. apply bytes_ok_app. auto.
+Qed.
+
 (* 32 is sharp: the 33-bit pattern of the generator polynomial itself leaves the register at zero *)
 Example c03_burst_33_undetected :
   run [true; false;false;false;false; false;true;false;false; true;true;false;false; false;false;false;true;
@@ -156,4 +197,5 @@ Print Assumptions c03_history_invariant.
 Print Assumptions c03_verified_only.
 Print Assumptions c03_train_opened.
 Print Assumptions c03_length_exact.
+Print Assumptions c03_history_bytes.
 Print Assumptions c03_burst_detected.
